@@ -58,6 +58,7 @@ func pipen(files []string) string {
 			}
 			params := []string{}
 			scope := map[string]bool{}
+			isParam := map[string]bool{}
 			for _, p := range fd.Type.Params.List {
 				x, y := funcType(p.Type, fd.Name.Name)
 				if !isTP[x] || !isTP[y] {
@@ -66,6 +67,7 @@ func pipen(files []string) string {
 				for _, n := range p.Names {
 					params = append(params, fmt.Sprintf("(%s : %s → m %s)", id(n.Name), x, y))
 					scope[n.Name] = true
+					isParam[n.Name] = true
 				}
 			}
 			if fd.Type.Results == nil || len(fd.Type.Results.List) != 1 {
@@ -90,13 +92,35 @@ func pipen(files []string) string {
 				return "", false
 			}
 			a.head = func(e ast.Expr) string {
-				if i, ok := e.(*ast.Ident); ok && scope[i.Name] && i.Name != arg {
+				if i, ok := e.(*ast.Ident); ok && isParam[i.Name] {
 					return id(i.Name)
 				}
 				fail(fset.Position(e.Pos()), "%s: call head %s is not one of the supplied functions", fd.Name.Name, src(e))
 				return ""
 			}
-			body := singleReturn(lit.Body, fd.Name.Name+" closure")
+			// accepted closure bodies: zero or more `x := <expr>` (single assignment of a fresh name) followed by
+			// one `return <expr>`; each call becomes a bind in Go's evaluation order
+			if lit.Body == nil || len(lit.Body.List) == 0 {
+				fail(fset.Position(lit.Pos()), "%s closure: empty body", fd.Name.Name)
+			}
+			for _, st := range lit.Body.List[:len(lit.Body.List)-1] {
+				as, ok := st.(*ast.AssignStmt)
+				if !ok || as.Tok.String() != ":=" || len(as.Lhs) != 1 || len(as.Rhs) != 1 {
+					fail(fset.Position(st.Pos()), "%s closure: only `x := e` statements may precede the return, got %s", fd.Name.Name, src(st))
+				}
+				name, ok := as.Lhs[0].(*ast.Ident)
+				if !ok || scope[name.Name] || name.Name == "_" {
+					fail(fset.Position(st.Pos()), "%s closure: `%s` does not introduce a fresh name", fd.Name.Name, src(st))
+				}
+				atom := a.expr(as.Rhs[0])
+				a.binds = append(a.binds, fmt.Sprintf("let %s := %s", id(name.Name), atom))
+				scope[name.Name] = true
+			}
+			rs, ok := lit.Body.List[len(lit.Body.List)-1].(*ast.ReturnStmt)
+			if !ok || len(rs.Results) != 1 {
+				fail(fset.Position(lit.Body.Pos()), "%s closure: body does not end in a single-value return", fd.Name.Name)
+			}
+			body := rs.Results[0]
 			lines := a.ret(body)
 			fmt.Fprintf(&sb, "def %s {%s : Type} %s : %s → m %s := fun %s => do\n", fd.Name.Name,
 				strings.Join(tps, " "), strings.Join(params, " "), rx, ry, id(arg))
